@@ -429,6 +429,77 @@ def shape_shard(kind, cname):
     return tally
 
 
+def da_batch_shard(rule, conn):
+    """Delay-adjusted / kernel rules with a sum reduction (and, for the three-factor ones, a per-sample reward tensor of mixed sign):
+    for every pair of pre/post histories of length 2 the batched step's parts equal the sums of the two batch-size-1 steps - on
+    dense (2-D weight), direct (1-D weight) and conv (4-D weight) cells, so that per-sample factors broadcast over any weight rank."""
+    import checks.c18_delayadj as c18
+    from checks.trainer_common import Cellspec, all_histories, step_layer
+    tally = Tally()
+    spec = Cellspec(conn, 2, 2) if conn != "conv" else Cellspec("conv", 1, 1)
+    T = 2
+    hs = all_histories(T, spec.in_bits + spec.out_bits)
+    if len(hs) > 16:  # a fixed, evenly spaced sub-family of the histories (stated in the evidence): all ordered pairs of it
+        hs = hs[:: len(hs) // 16][:16]
+    three = rule in ("da-mstdp", "da-mstdpd")
+    param = "delay" if rule in c18.DELAY_RULES else "weight"
+    delays = torch.full(spec.wshape, 1.0)
+
+    def run(hists, sig):
+        B = len(hists)
+        layer = spec.build(1.0, B, 2.0, delays)
+        tr = c18.make(rule, "hebbian", torch.sum)
+        tr.register_cell("cell", layer.cell)
+        out = []
+        for t in range(T):
+            step_layer(layer, spec.pre_tensor([h[t][: spec.in_bits] for h in hists]), spec.post_tensor([h[t][spec.in_bits:] for h in hists]))
+            if three:
+                tr(torch.tensor(sig), 0.5)
+            else:
+                tr()
+            acc = getattr(layer.connection.updater, param)
+            out.append([None if x is None else x.detach().clone().to(torch.float64) for x in (acc.pos, acc.neg)])
+        return out
+
+    for pair in itertools.product(hs, repeat=2):
+        tally.add("evaluations")
+        sig = [1.0, -0.5]
+        case = {"rule": rule, "conn": conn, "histories": [list(map(list, h)) for h in pair], "per_sample_signal": sig if three else None}
+        try:
+            batched = run(list(pair), sig)
+            singles = [run([h], [sg]) for h, sg in zip(pair, sig)]
+        except Exception as ex:
+            tally.violation(f"exception:da-batch:{rule}:{conn}:{type(ex).__name__}", case, f"{type(ex).__name__}: {ex}", None, repr(ex))
+            break
+        bad = False
+        for t in range(T):
+            for i, nm in enumerate(("pos", "neg")):
+                b = batched[t][i]
+                ss = [s_[t][i] for s_ in singles]
+                ref = next((x for x in [b] + ss if x is not None), None)
+                if ref is None:
+                    continue
+                z = torch.zeros(spec.wshape, dtype=torch.float64)
+                try:
+                    tot = sum((x + z if x is not None else z) for x in ss)
+                    bb = (b + z) if b is not None else z
+                    okk = bb.shape == tot.shape and bool(torch.allclose(bb, tot, rtol=1e-5, atol=1e-6))
+                except Exception:
+                    okk = False
+                if not okk:
+                    tally.violation(f"da-batch:batched!=sum-of-samples:{rule}:{conn}:{nm}", {**case, "step": t},
+                                    f"step {t}: batched {nm} part {None if b is None else tuple(b.shape)} {None if b is None else b.reshape(-1).tolist()[:8]} but the "
+                                    f"per-sample steps sum to {tot.reshape(-1).tolist()[:8]}")
+                    bad = True
+                    break
+            if bad:
+                break
+        if pair[0] != pair[1]:
+            tally.mark("nontrivial", ("da-batch", rule, conn, tuple(map(tuple, pair[0])), tuple(map(tuple, pair[1]))))
+    tally.sample({"part": "delay-adjusted rules, sum reduction", "rule": rule, "conn": conn})
+    return tally
+
+
 def run(rep):
     quick = rep.tier == "quick"
     T = 3 if quick else 4
@@ -469,6 +540,11 @@ def run(rep):
     for param in ("weight", "bias", "delay"):
         for how in ("ctor", "override"):
             jobs.append((homeostasis_batch_shard, (param, how)))
+    for rule in ("da-stdp", "da-stdpd", "da-mstdp", "da-mstdpd", "da-kernel"):
+        for conn in ("dense", "direct", "conv"):
+            if quick and conn == "conv" and rule not in ("da-mstdp", "da-stdp"):
+                continue
+            jobs.append((da_batch_shard, (rule, conn)))
     for cname in CLS:
         jobs.append((shape_shard, ("neuron", cname)))
     for sname in ("delta", "deltaplus", "exp", "dexp"):
